@@ -92,7 +92,7 @@ PROPERTIES = {
     },
     "C14": {
         "level": "exploration",
-        "classes": ["TSAN_RACE", "DIGEST_MISMATCH", "DATASET_ITEM_MISMATCH", "DATASET_WRITE_OUTSIDE", "DATASET_MODEL_DISAGREE", "UNEXPECTED_NULL"] + CRASH,
+        "classes": ["TSAN_RACE", "ASM_GLOBAL_RACE", "DIGEST_MISMATCH", "DATASET_ITEM_MISMATCH", "DATASET_WRITE_OUTSIDE", "DATASET_MODEL_DISAGREE", "UNEXPECTED_NULL"] + CRASH,
         "rule": "seeded plans: shared cache(s)/dataset set up by the main task, then 2-4 simulated threads with own VMs of all flag sets, disjoint init_dataset ranges and private objects, run under the seeded scheduler; "
                 "a case is one (plan, schedule); distinct_nontrivial counts distinct plan shapes; distinct interleavings reported separately; "
                 "oracles: TSan happens-before reports (scheduler invisible to TSan), digests/dataset == sequential model, read-only page guards on shared data",
@@ -109,7 +109,7 @@ PROPERTIES = {
     },
     "C08": {
         "level": "exploration",
-        "classes": ["DATASET_ITEM_MISMATCH", "DATASET_WRITE_OUTSIDE", "DATASET_MODEL_DISAGREE", "DIGEST_MISMATCH", "TSAN_RACE", "UNEXPECTED_NULL"] + CRASH,
+        "classes": ["DATASET_ITEM_MISMATCH", "DATASET_WRITE_OUTSIDE", "DATASET_MODEL_DISAGREE", "DIGEST_MISMATCH", "TSAN_RACE", "ASM_GLOBAL_RACE", "UNEXPECTED_NULL"] + CRASH,
         "rule": "seeded plans: disjoint target ranges (counts 0-3, multiples and non-multiples of 4, last item, page-straddling, adjacent), a partition into init_dataset calls, assignment to 1-4 simulated threads and a schedule; "
                 "poisoned prepared region, inaccessible remainder; oracle: requested items == initDatasetItem on a fresh cache == independent spec reading, everything else still poison; "
                 "a case is one (plan, schedule); distinct_nontrivial counts distinct plan shapes",
